@@ -53,8 +53,17 @@ TEXT = {
 }
 
 
+def tie_of():
+    src = open(os.path.join(VERIF, "check")).read()
+    body = re.search(r"TIE_OF = \{(.*?)\n\}", src, flags=re.S).group(1)
+    return {m.group(1): re.findall(r'"(Tie\w+)"', m.group(2)) for m in re.finditer(r'"(C\d\d)": \[([^\]]*)\]', body)}
+
+
 def theorem_count(pid):
-    n = 0 if pid == "Tie" else theorem_count("Tie")
+    n = 0
+    for tie in tie_of().get(pid, []):
+        src = re.sub(r"/-.*?-/", "", open(os.path.join(VERIF, "lean", "GseVerif", "Props", tie + ".lean")).read(), flags=re.S)
+        n += len(re.findall(r"^\s*theorem\s+Tie_\w+", src, flags=re.M))
     for path in glob.glob(os.path.join(VERIF, "lean", "GseVerif", "Props", pid + "*.lean")):
         src = re.sub(r"/-.*?-/", "", open(path).read(), flags=re.S)
         n += len(re.findall(r"^\s*theorem\s+" + pid + r"_\w+", src, flags=re.M))
